@@ -1,22 +1,33 @@
 import Cfdm.Lemmas.RefCheck
+import Cfdm.Lemmas.RefCheckReport
 /-!
 # C13 — structurally non-compliant datasets are read, and reported
 
 Model: `Cfdm.Model.RefCheck` (the reader's tokenisers, pre-scan, `_check_*` decisions, caches,
-`_add_message`, `file_close`), parametrised by which of the proposed patches
-`fixes/C13-*.patch` are applied (`patched` / `coded`).
+`_add_message` with the content of every entry, `_copy_construct`, `file_close`), parametrised by `Cfg`:
+`coded` = the reader before the C13 repairs, `head` = the reader at /repo HEAD (the eight earlier
+patches and 7931fa5 are merged), `patched` = HEAD plus the four proposed patches that concern the
+model (fixes/C13-cell-method-interval-attribute, -grid-mapping-coordinate-not-used,
+-node-coordinates-report-with-coordinate, -auxiliary-coordinate-cache-per-geometry).
 
 The property statement, clause by clause:
 
 * "reading it does not raise … and all files are closed" — `C13_never_raises`,
   `C13_field_never_raises`, `C13_files_closed`: for EVERY dataset of the model (every value of
   every reference attribute of every variable: any token replaced by anything, any token removed,
-  any malformed string) the patched reader returns; the code as it is does not
-  (`C13_coded_*` witnesses, each replayed against the real code by the correspondence).
-* "only the element that could not be mapped is left out, the problem is recorded" —
-  `C13_tokens_tolerant` (every token list, every position, by induction), instantiated for
-  `ancillary_variables` in `C13_ancillary_tolerant`; refuted for the code as it is by
-  `C13_coded_all_or_nothing`.
+  any malformed string) the reader returns; the code before the repairs did not
+  (`C13_coded_*` witnesses).
+* "only the element that could not be mapped is left out" — `C13_tokens_tolerant` (every token list,
+  every position, by induction), instantiated for `ancillary_variables` in `C13_ancillary_tolerant`;
+  `C13_rejected_coordinate_not_referenced` (for every state of the cross-field caches).
+* "the problem is recorded in the field's dataset-compliance report" — the record of a data variable
+  is never reset and only grows, from the pre-scan to the last stage, and so does the component
+  report that is shared between fields (`C13_report_only_grows`, every `Cfg`); every broken
+  `coordinates` / `ancillary_variables` token has an entry under ITS name quoting the parent's
+  attribute in the field that is returned, whatever the caches held (`C13_broken_coordinate_reported`,
+  `C13_broken_ancillary_reported`); with the proposed patches also the foreign grid-mapping coordinate
+  (`C13_unused_grid_mapping_coordinate_reported`) and every cell-method message quotes the attribute
+  (`C13_cell_method_messages_quote_attribute`); what HEAD does instead: `C13_head_*` witnesses.
 * malformed strings — `C13_cell_methods_total`, `C13_malformed_mapping_reported`.
 
 Full-strength statement that is NOT proved (kept visible, see `C13_tolerant_partial`):
@@ -27,14 +38,18 @@ Full-strength statement that is NOT proved (kept visible, see `C13_tolerant_part
         (∀ dv ∈ concerned F site, report fs dv ≠ [])
 
 What is proved of it: the no-raise and closed clauses for all files and all sites and kinds at once
-(stronger than per site), and the "exactly the broken entry" and "reported" clauses for the
-attributes whose entries are checked independently (list lemma for any such attribute, stage-level
-instance for `ancillary_variables`).  Missing: the same equation for `coordinates`, `bounds`,
-`formula_terms`, `grid_mapping`, `cell_measures` and the geometry / compression attributes at the
-level of whole fields, where it additionally needs a frame argument over the caches that are shared
-between the fields of one read (`g['auxiliary_coordinate']`, `g['component_report']`,
-`g['vertical_crs']`); on those the claim rests on the exhaustive-per-file correspondence and the
-clause oracle.
+(stronger than per site); the "reported" clause with the CONTENT of the entry for `coordinates` and
+`ancillary_variables` at the level of the returned fields, for any state of the caches; the "exactly
+the broken entry" clause for the attributes whose entries are checked independently (list lemma for
+any such attribute, stage-level instance for `ancillary_variables`).  Missing: the element equation
+for `coordinates`, `bounds`, `formula_terms`, `grid_mapping`, `cell_measures` and the geometry /
+compression attributes at the level of whole fields, and the report entries of `bounds` /
+`formula_terms` on a cache hit: they need a frame argument over `g['auxiliary_coordinate']`,
+`g['domain_ancillary']` and `g['component_report']` (done here for the monotonicity of both reports
+and for where `_check_bounds` files its messages; the bounds of a cached domain ancillary really
+depend on which coordinate referenced it first); on those the claim rests on the
+exhaustive-per-file correspondence - which compares the set of report entries of every data variable -
+and the clause oracle.
 -/
 namespace Cfdm.Props.C13
 open Cfdm.RefCheck
@@ -152,7 +167,7 @@ of `cell_measures` (any value at all), the stage adds no element and records a m
 theorem C13_malformed_mapping_reported (F : NcFile) (P : Pre) (v : String) (D : List String) (vv : NcVar)
     (s : FSt) (cmz : String) (ha : vv.attr? "cell_measures" = some cmz) (hbad : parseX cmz = []) :
     ∃ s', stageCellMeasures patched F P v D vv s = .ok s' ∧ s'.out.elems = s.out.elems ∧
-      s'.out.msgs = s.out.msgs ++ [⟨v, "cell_measures"⟩] := by
+      s'.out.msgs = s.out.msgs ++ [msrMalformed v] := by
   unfold stageCellMeasures
   simp only [ha, hbad, checked, List.isEmpty_nil, Bool.not_true, Bool.and_false, Bool.false_eq_true, ↓reduceIte,
     allOrNothing, checkCellMeasures, bind, Except.bind, List.foldlM_nil, pure, Except.pure]
@@ -179,7 +194,8 @@ records the problem; removing the token attaches exactly the others. -/
 theorem C13_ancillary_tolerant (F : NcFile) (P : Pre) (v : String) (D : List String)
     (ts : List String) (hvalid : ∀ t ∈ ts, ancOk F P D t = true)
     (i : Nat) (hi : i < ts.length) (bad : String) (hb : ancOk F P D bad = false) :
-    ∃ ms, checked patched (checkAncillary patched F P v D) (ts.set i bad) = .ok (ts.eraseIdx i, ms) ∧ ms ≠ [] ∧
+    ∃ ms, checked patched (checkAncillary patched F P v D) (ts.set i bad) = .ok (ts.eraseIdx i, ms) ∧
+      ms = [if F.hasVar bad then ancForeign v bad else ancMissing v bad] ∧
       (ts.eraseIdx i ≠ [] →
         checked patched (checkAncillary patched F P v D) (ts.eraseIdx i) = .ok (ts.eraseIdx i, [])) := by
   have hne : (ts.set i bad).isEmpty = false := by
@@ -188,13 +204,16 @@ theorem C13_ancillary_tolerant (F : NcFile) (P : Pre) (v : String) (D : List Str
     | cons t ts => cases i <;> simp
   have hfil : (ts.eraseIdx i).filter (ancOk F P D) = ts.eraseIdx i :=
     filter_all _ _ (fun x hx => hvalid x (mem_eraseIdx ts i x hx))
-  obtain ⟨ms, h1, h2, h3⟩ := C13_tokens_tolerant (checkAncillary patched F P v D) (ancOk F P D) (ancMsgs F P D)
-    (checkAncillary_entry F P v D) ts i hi bad hb (by simp [ancMsgs, hb])
-  refine ⟨ms, ?_, h2, ?_⟩
+  have h3 := perEntry_eq_filter (checkAncillary patched F P v D) (ancOk F P D) (ancMsgs F P v D)
+    (checkAncillary_entry F P v D) (ts.eraseIdx i)
+  refine ⟨_, ?_, rfl, ?_⟩
   · unfold checked
     have hpt : patched.perToken = true := rfl
     simp only [hpt, hne, Bool.not_false, Bool.and_self, ↓reduceIte]
-    rw [h1, hfil]
+    rw [perEntry_eq_filter (checkAncillary patched F P v D) (ancOk F P D) (ancMsgs F P v D)
+      (checkAncillary_entry F P v D), filter_set_bad _ bad hb ts i hi, hfil,
+      flatMap_set_single (ancMsgs F P v D) bad ts (fun x hx => by simp [ancMsgs, hvalid x hx]) i hi]
+    simp [ancMsgs, hb]
   · intro hne2
     unfold checked
     have hpt : patched.perToken = true := rfl
@@ -204,7 +223,7 @@ theorem C13_ancillary_tolerant (F : NcFile) (P : Pre) (v : String) (D : List Str
       | cons _ _ => rfl
     simp only [hpt, this, Bool.not_false, Bool.and_self, ↓reduceIte]
     rw [h3, hfil]
-    have : (ts.eraseIdx i).flatMap (ancMsgs F P D) = [] := by
+    have : (ts.eraseIdx i).flatMap (ancMsgs F P v D) = [] := by
       apply List.flatMap_eq_nil_iff.mpr
       intro x hx
       simp [ancMsgs, hvalid x (mem_eraseIdx ts i x hx)]
@@ -266,6 +285,201 @@ set_option maxRecDepth 100000 in
 example : (readFile patched W4).field? "ta" = some (["aux:height", "aux:lat2d"], false) ∧
     (readFile patched W4).field? "ps" = some (["aux:lat2d"], true) ∧
     (readFile patched W4).field? "height" = none := by decide
+
+/-! ### "The problem is recorded in the field's dataset-compliance report": what the report says
+
+An entry of the report is modelled with its key (`Msg.var`, the netCDF variable it is filed under), the
+key of its `attribute` dictionary (`Msg.attr`, `parent:attribute`) and its `reason`; the correspondence
+compares the set of these triples for every data variable of every case. -/
+
+instance (F : NcFile) : Decidable (NamesUnique F) := by
+  unfold NamesUnique; exact inferInstance
+
+/-- The report of the field of `dv`. -/
+def report? (o : Outcome) (dv : String) : Option (List Msg) :=
+  match o.result with
+  | .error _ => none
+  | .ok r => (r.lookup dv).map (·.msgs)
+
+theorem readFile_ok {cfg : Cfg} {F : NcFile} {r : List (String × FieldOut)}
+    (h : (readFile cfg F).result = .ok r) : readBody cfg F = .ok r := by
+  unfold readFile at h
+  split at h
+  · rename_i r' hr; cases h; exact hr
+  · cases h
+
+/-- **The report is never reset.**  For every configuration of the reader: whatever the pre-scan
+(`_parse_geometry`, the compression and DSG scans) recorded for a data variable is in the report of its
+field; every stage of `_create_field_or_domain` only appends to the field's report AND to
+`g['component_report']` (`runStages_ext`); and the component report that the next field starts from
+still has every entry (`createField_component_report`). -/
+theorem C13_report_only_grows (cfg : Cfg) (F : NcFile) (P : Pre) (C : Caches) (vv : NcVar) (fo : FieldOut)
+    (C' : Caches) (h : createField cfg F P C vv = .ok (fo, C')) :
+    (∀ m, (some vv.name, m) ∈ P.msgs → m ∈ fo.msgs) ∧
+    (∃ rs, C'.report = C.report ++ rs) ∧
+    (∀ D s0 s8, runStages cfg F P vv D s0 = .ok s8 →
+      (∃ ms, s8.out.msgs = s0.out.msgs ++ ms) ∧ (∃ rs, s8.C.report = s0.C.report ++ rs)) :=
+  ⟨fun m hm => createField_keeps_prescan cfg F P C vv fo C' h m hm,
+   createField_component_report cfg F P C vv fo C' h,
+   fun D s0 s8 hr => runStages_ext cfg F P vv D s0 s8 hr⟩
+
+/-- The messages of `_check_bounds` are filed under the coordinate variable (that is the key under which
+`_copy_construct` finds them when another data variable re-uses the cached construct). -/
+theorem C13_bounds_messages_filed_under_coordinate (F : NcFile) (P : Pre) (coord attr b : String)
+    (r : Bool × List Msg) (h : checkBounds F P coord attr b = .ok r) : ∀ m ∈ r.2, m.comp = coord :=
+  checkBounds_comp F P coord attr b r h
+
+set_option maxRecDepth 100000 in
+/-- Non-vacuity: a pre-scan message (`geometry` names a missing container) and a stage message end up
+together in the report of the field; the field of a later variable starts from a component report that
+still has them. -/
+example :
+    report? (readFile patched
+      { globals := [], dims := ["i"],
+        vars := [⟨"pr", ["i"], .num, [("geometry", "nosuch"), ("ancillary_variables", "gone")]⟩] }) "pr" =
+      some [mkMsg "nosuch" "pr" "geometry" "Geometry variable is not in file", ancMissing "pr" "gone"] := by
+  decide
+
+/-- **Every broken `coordinates` token is reported under its own name, for the parent that named it** —
+at the level of whole files, whatever the other variables and the reader's caches did before: in the
+field returned for `dv`, every token of its `coordinates` attribute (other than a dimension of `dv`)
+that names no variable has an entry `(token, dv:coordinates, … is not in file)`, and every token that
+names a variable with a dimension foreign to `dv` — be it a valid coordinate of another data variable,
+created earlier or later — has an entry `(token, dv:coordinates, … spans incorrect dimensions)`. -/
+theorem C13_broken_coordinate_reported (F : NcFile) (hu : NamesUnique F) (r : List (String × FieldOut))
+    (h : (readFile patched F).result = .ok r) (dv : String) (fo : FieldOut) (hm : (dv, fo) ∈ r) :
+    ∃ P vv, preScan patched F = .ok P ∧ F.var? dv = some vv ∧
+      ∀ tok ∈ optToks (vv.attr? "coordinates"), (applyComp P.comp (rawDims vv)).contains tok = false →
+        (F.var? tok = none → coordMissing dv tok ∈ fo.msgs) ∧
+        (∀ cv, F.var? tok = some cv →
+          (applyComp P.comp (rawDims cv)).all (applyComp P.comp (rawDims vv)).contains = false →
+          coordForeign dv tok ∈ fo.msgs) := by
+  obtain ⟨P, hP, hall⟩ := readBody_origin patched F r (readFile_ok h)
+  obtain ⟨C, C', vv, hvv, hname, hcf⟩ := hall (dv, fo) hm
+  simp only at hname hcf
+  have hv : F.var? vv.name = some vv := hu vv hvv
+  refine ⟨P, vv, hP, hname ▸ hv, ?_⟩
+  intro tok ht hD
+  have := createField_reports_coordinate F P C vv fo C' hcf hv tok ht hD
+  rw [hname] at this
+  exact this
+
+/-- What the two entries say: filed under the token, quoting the parent's attribute. -/
+theorem coordinate_entries_name_the_token (v tok : String) :
+    (coordMissing v tok).var = tok ∧ (coordMissing v tok).attr = v ++ ":" ++ "coordinates" ∧
+    (coordForeign v tok).var = tok ∧ (coordForeign v tok).attr = v ++ ":" ++ "coordinates" :=
+  ⟨rfl, rfl, rfl, rfl⟩
+
+/-- The same for `ancillary_variables`: every entry that fails its check (`ancOk`: the variable exists
+and its dimensions are the parent's) is in the report of the returned field under its own name. -/
+theorem C13_broken_ancillary_reported (F : NcFile) (hu : NamesUnique F) (r : List (String × FieldOut))
+    (h : (readFile patched F).result = .ok r) (dv : String) (fo : FieldOut) (hm : (dv, fo) ∈ r) :
+    ∃ P vv, preScan patched F = .ok P ∧ F.var? dv = some vv ∧
+      ∀ av, vv.attr? "ancillary_variables" = some av → ∀ n ∈ splitWS av,
+        ancOk F P (applyComp P.comp (rawDims vv)) n = false →
+        (if F.hasVar n then ancForeign dv n else ancMissing dv n) ∈ fo.msgs := by
+  obtain ⟨P, hP, hall⟩ := readBody_origin patched F r (readFile_ok h)
+  obtain ⟨C, C', vv, hvv, hname, hcf⟩ := hall (dv, fo) hm
+  simp only at hname hcf
+  have hv : F.var? vv.name = some vv := hu vv hvv
+  refine ⟨P, vv, hP, hname ▸ hv, ?_⟩
+  intro av ha n hn hbad
+  have := createField_reports_ancillary F P C vv fo C' hcf hv av ha n hn hbad
+  rw [hname] at this
+  exact this
+
+/-- `ta` names a missing coordinate, `lat2d` (valid for `ps`, foreign to `ta`) and a missing ancillary. -/
+def W5 : NcFile :=
+  { globals := [], dims := ["z", "y", "x"],
+    vars := [⟨"lat2d", ["y", "x"], .num, []⟩,
+             ⟨"ps", ["y", "x"], .num, [("coordinates", "lat2d")]⟩,
+             ⟨"ta", ["z"], .num, [("coordinates", "nosuch lat2d"), ("ancillary_variables", "gone")]⟩] }
+
+set_option maxRecDepth 100000 in
+/-- Non-vacuity: the three entries, each under the name of the token, quoting `ta`'s attribute. -/
+example : NamesUnique W5 ∧
+    report? (readFile patched W5) "ta" = some [coordMissing "ta" "nosuch", coordMissing "ta" "nosuch",
+      coordForeign "ta" "lat2d", ancMissing "ta" "gone"] ∧
+    report? (readFile patched W5) "ps" = some [] ∧
+    (coordForeign "ta" "lat2d").var = "lat2d" ∧ (coordForeign "ta" "lat2d").attr = "ta:coordinates" ∧
+    (ancMissing "ta" "gone").reason = "Ancillary variable is not in file" := by decide
+
+/-- **`grid_mapping`, with the proposed patch**: a coordinate `c` listed by a compliant mapping that is
+not a construct of the data variable (no key when the stage starts; no grid mapping variable of the
+attribute is called `c`) is recorded under its own name; the coordinate reference is still made. -/
+theorem C13_unused_grid_mapping_coordinate_reported (F : NcFile) (v : String) (vv : NcVar) (s s' : FSt)
+    (h : stageGridMapping patched F v vv s = .ok s') (gm : String) (ha : vv.attr? "grid_mapping" = some gm)
+    (x : String × List String) (hx : x ∈ parseX gm) (hok : gmOk F x = true)
+    (c : String) (hcx : c ∈ x.2) (hc : List.lookup c s.keys = none) (hne : ∀ y ∈ parseX gm, y.1 ≠ c) :
+    gmCoordUnused v c ∈ s'.out.msgs :=
+  stageGridMapping_reports_unused F v vv s s' h gm ha x hx hok c hcx hc hne
+
+/-- `ta(y,x)` lists `other(f)` in its extended grid mapping. -/
+def W6 : NcFile :=
+  { globals := [], dims := ["y", "x", "f"],
+    vars := [⟨"y", ["y"], .num, []⟩, ⟨"x", ["x"], .num, []⟩, ⟨"other", ["f"], .num, []⟩, ⟨"crs", [], .num, []⟩,
+             ⟨"ta", ["y", "x"], .num, [("grid_mapping", "crs: other x")]⟩] }
+
+set_option maxRecDepth 100000 in
+/-- **The code as it is says nothing** about the foreign grid-mapping coordinate (open finding
+`grid_mapping:foreign:unreported`); with the patch the entry is there and the reference is kept. -/
+theorem C13_head_grid_mapping_coordinate_silent :
+    (readFile head W6).field? "ta" = some (["dim:y", "dim:x", "ref:gm:crs"], false) ∧
+    (readFile patched W6).field? "ta" = some (["dim:y", "dim:x", "ref:gm:crs"], true) ∧
+    report? (readFile patched W6) "ta" = some [gmCoordUnused "ta" "other"] := by decide
+
+/-- `pr` and `qr` share the geometry container `gc` and the coordinate `lon`, whose `nodes` attribute
+names a missing variable. -/
+def W7 : NcFile :=
+  { globals := [], dims := ["instance", "node"],
+    vars := [⟨"x", ["node"], .num, []⟩, ⟨"y", ["node"], .num, []⟩, ⟨"nc", ["instance"], .num, []⟩,
+             ⟨"gc", [], .num, [("node_coordinates", "x y"), ("node_count", "nc")]⟩,
+             ⟨"lon", ["instance"], .num, [("nodes", "nosuch")]⟩,
+             ⟨"pr", ["instance"], .num, [("geometry", "gc"), ("coordinates", "lon")]⟩,
+             ⟨"qr", ["instance"], .num, [("geometry", "gc"), ("coordinates", "lon")]⟩] }
+
+/-- `pr` has a broken `geometry` attribute, `qr` a valid one; both name the coordinate `lon` with nodes `x`. -/
+def W8 : NcFile :=
+  { globals := [], dims := ["instance", "node"],
+    vars := [⟨"x", ["node"], .num, []⟩, ⟨"y", ["node"], .num, []⟩, ⟨"nc", ["instance"], .num, []⟩,
+             ⟨"gc", [], .num, [("node_coordinates", "x y"), ("node_count", "nc")]⟩,
+             ⟨"lon", ["instance"], .num, [("nodes", "x")]⟩,
+             ⟨"pr", ["instance"], .num, [("geometry", "nosuch"), ("coordinates", "lon")]⟩,
+             ⟨"qr", ["instance"], .num, [("geometry", "gc"), ("coordinates", "lon")]⟩] }
+
+set_option maxRecDepth 100000 in
+/-- **Cross-field caches, as coded and as patched.**  (1) `_check_geometry_node_coordinates` files its
+message under the data variable, so the second data variable, which gets the cached coordinate, has an
+empty report (open finding `nodes:*:unreported-in-sharing-field`); filed under the coordinate it is
+copied along.  (2) The auxiliary coordinate created for a data variable without a usable geometry
+container has no node bounds and is handed to the data variable with a valid container (open finding
+`geometry:*:lost-in-other-field`); keyed by the container it is created again, with its bounds. -/
+theorem C13_head_shared_coordinate_caches :
+    ((readFile head W7).field? "pr" = some (["aux:lon", "node:x", "node:y"], true) ∧
+     (readFile head W7).field? "qr" = some (["aux:lon", "node:x", "node:y"], false) ∧
+     (readFile patched W7).field? "qr" = some (["aux:lon", "node:x", "node:y"], true)) ∧
+    ((readFile head W8).field? "qr" = some (["aux:lon", "node:x", "node:y"], false) ∧
+     (readFile patched W8).field? "qr" = some (["aux:lon", "bnd:lon:x", "node:y"], false)) := by decide
+
+/-- **Every cell-method message quotes the attribute** (patched): whatever the string, what
+`_parse_cell_methods` records for `v` is filed under `v` and quotes `v:cell_methods`. -/
+theorem C13_cell_method_messages_quote_attribute (v s : String) :
+    ∀ m ∈ cellMethodsMsgs patched v s, m.var = v ∧ m.attr = v ++ ":cell_methods" := by
+  intro m hm
+  unfold cellMethodsMsgs at hm
+  split at hm
+  · cases hm
+  · simp only [patched, ↓reduceIte, List.mem_singleton] at hm; subst hm; exact ⟨rfl, rfl⟩
+  · simp only [List.mem_singleton] at hm; subst hm; exact ⟨rfl, rfl⟩
+  · simp only [List.mem_singleton] at hm; subst hm; exact ⟨rfl, rfl⟩
+
+set_option maxRecDepth 100000 in
+/-- … whereas the first of the three interval messages of the code as it is quotes nothing. -/
+theorem C13_head_cell_method_interval_without_attribute :
+    (cellMethodsMsgs head "ta" "time: mean (interval: one hr)").map (·.attr) = [""] ∧
+    (cellMethodsMsgs patched "ta" "time: mean (interval: one hr)").map (·.attr) = ["ta:cell_methods"] ∧
+    (cellMethodsMsgs head "ta" "time: mean (interval: 1 hr interval: 2 hr)").map (·.attr) = ["ta:cell_methods"] := by
+  decide
 
 /-- What is proved of `C13_tolerant` at the level of whole files: for every readable dataset — in
 particular for `breakRef F site kind` of every site and kind, whose readability does not depend on
